@@ -1,12 +1,16 @@
 (** C17 -- Container reader on damaged files: genuine prefix only, corruption detected.
     Statements only; proofs in proofs/ContainerReadProofs.v. Reader model: model/Container.v
     (cr_open, enter_block, cr_inner, cr_next: NotInBlock / InBlock / Broken, "error once then end of
-    stream"), null codec; decompression and the snappy CRC are outside the model and decided on the
-    crate by the correspondence run (every truncation offset, single-byte corruptions of count,
-    size, sync, CRC, payload, for all codecs). *)
+    stream"), null codec; compressed blocks: model/DecodeLoop.v (BufReader over an abstract streaming
+    decoder over Take, the end-of-block check, the snappy block), for EVERY decoder meeting
+    `stream_decoder_contract` (validated on the real decoders through hook H4 on every run); the
+    libraries themselves are decided on the crate by the correspondence run (every truncation offset,
+    single-byte corruptions of count, size, sync, CRC, payload, for all codecs). *)
 From Coq Require Import List NArith ZArith.
 Require Import Base Schema Sval Ser Target Reader De AvroValue Encoding Denote Wf VectoredWrite Container.
 Require Import ContainerReadProofs.
+Require Import CodecLoop DecodeLoop DecodeLoopProofs DecodeLoopDe DecodeLoopDePrefix.
+Require Import FileSpec ContainerHeaderProofs ContainerChunkProofs DePrefixProofs ContainerDamageProofs.
 Import ListNotations.
 
 (* truncation, in full generality: for ANY bytes bs and ANY continuation x (no well-formedness
@@ -89,3 +93,203 @@ Check Example.all_truncations_ok.
 Check Example.sync_mismatch_sample.
 Check count_too_large_null_schema_accepted.
 Check count_too_large_long_schema.
+
+(** ** Compressed blocks (model/DecodeLoop.v) *)
+
+(* the object count lowered: the first values, then "decompressed data left in the block" -- whether the left-over
+   bytes sit in the BufReader or are still inside the decoder *)
+Theorem C17_compressed_count_lowered :
+  forall (D : Type) (dread : D -> bytes -> option chunkst -> nat -> dres * D) (policy : nat -> nat -> option nat)
+         Sc cfg root (z : bytes) (d0 : D) (vs1 vs2 : list avalue) sync src ch cap fuel s,
+  schema_wf Sc = true -> Forall (value_ok Sc cfg root) vs1 -> encs Sc root vs2 <> [] -> firstn (length z) src = z ->
+  stream_decoder_contract D dread z (encs Sc root (vs1 ++ vs2)) z d0 -> (1 <= cap)%nat ->
+  (length (encs Sc root (vs1 ++ vs2)) < fuel)%nat ->
+  block_open D d0 src ch (length z) cap = Some s ->
+  block_run D dread policy dval (de_vdec Sc cfg root) fuel (length vs1) sync s
+    = (map (dval_any Sc root) vs1, BEndErr EndLeftover).
+Proof. exact compressed_count_lowered_de. Qed.
+
+(* bytes behind the end of the compressed stream inside the declared size: an error, for any value decoder and count *)
+Theorem C17_compressed_trailing_garbage :
+  forall (D : Type) (dread : D -> bytes -> option chunkst -> nat -> dres * D) (policy : nat -> nat -> option nat)
+         (V : Type) (vdec : bytes -> result V * nat)
+         (z x junk : bytes) (d0 : D) sync src ch cap fuel count s,
+  junk <> [] -> firstn (length z + length junk) src = z ++ junk ->
+  stream_decoder_contract D dread z x (z ++ junk) d0 -> (1 <= cap)%nat ->
+  block_open D d0 src ch (length z + length junk) cap = Some s ->
+  is_err (snd (block_run D dread policy V vdec fuel count sync s)).
+Proof. exact trailing_garbage_detected. Qed.
+
+(* the declared size too small (the stream is cut at m): an error -- given that the 16 bytes then read as sync
+   marker are not the marker *)
+Theorem C17_compressed_cut_stream :
+  forall (D : Type) (dread : D -> bytes -> option chunkst -> nat -> dres * D) (policy : nat -> nat -> option nat)
+         (V : Type) (vdec : bytes -> result V * nat)
+         (z x : bytes) (d0 : D) sync rest m ch cap fuel count s,
+  (m < length z)%nat -> stream_decoder_contract D dread z x (firstn m z) d0 -> (1 <= cap)%nat ->
+  firstn 16 (skipn m (z ++ sync ++ rest)) <> sync ->
+  block_open D d0 (z ++ sync ++ rest) ch m cap = Some s ->
+  is_err (snd (block_run D dread policy V vdec fuel count sync s)).
+Proof. exact cut_stream_detected. Qed.
+
+(* in these cases whatever the decoder has produced -- all the deserializer can be given -- is a prefix of the
+   written data: no byte that was not written, none out of place *)
+Theorem C17_compressed_output_genuine :
+  forall (D : Type) (dread : D -> bytes -> option chunkst -> nat -> dres * D) (z x a : bytes) (d0 : D) d cons out,
+  agree a z -> stream_decoder_contract D dread z x a d0 -> dreach D dread a d0 d cons out -> is_prefix out x.
+Proof. exact damaged_output_genuine. Qed.
+
+(* ... and for a value decoder whose success does not depend on bytes it did not read (vdec_prefix_det), every VALUE
+   yielded from a block that holds the stream, the stream cut short, or the stream followed by other bytes -- whatever
+   the count (<= the number written) -- was written, in order: never a value that was not written *)
+Theorem C17_compressed_values_genuine :
+  forall (D : Type) (dread : D -> bytes -> option chunkst -> nat -> dres * D) (policy : nat -> nat -> option nat)
+         (V : Type) (vdec : bytes -> result V * nat) (W : Type) (P : W -> Prop) (enc1 : W -> bytes) (val : W -> V),
+  vdec_ok V vdec W P enc1 val -> vdec_prefix_det V vdec ->
+  forall (z : bytes) (d0 : D) (vs : list W) sync src size ch cap fuel count s,
+  Forall P vs -> agree (firstn size src) z ->
+  stream_decoder_contract D dread z (flat_map enc1 vs) (firstn size src) d0 ->
+  (1 <= cap)%nat -> (count <= length vs)%nat ->
+  block_open D d0 src ch size cap = Some s ->
+  exists i, fst (block_run D dread policy V vdec fuel count sync s) = map val (firstn i vs).
+Proof. exact damaged_values_genuine. Qed.
+
+(* snappy: lowered count; wrong CRC; block shorter than the CRC *)
+Theorem C17_snappy_count_lowered :
+  forall (raw_enc : bytes -> bytes) (raw_dec : bytes -> option bytes) (crc32 : bytes -> N),
+  (forall x, raw_dec (raw_enc x) = Some x) -> (forall x, crc32 x < 4294967296) ->
+  forall (V : Type) (vdec : bytes -> result V * nat) (W : Type) (P : W -> Prop) (enc1 : W -> bytes) (val : W -> V),
+  vdec_ok V vdec W P enc1 val ->
+  forall vs1 vs2 sync after, Forall P vs1 -> flat_map enc1 vs2 <> [] ->
+  snappy_run raw_dec crc32 V vdec (length vs1) sync
+             (snappy_encode raw_enc crc32 (flat_map enc1 (vs1 ++ vs2)) ++ after)
+             (length (snappy_encode raw_enc crc32 (flat_map enc1 (vs1 ++ vs2))))
+  = Some (map val vs1, BEndErr EndLeftover).
+Proof. exact snappy_count_lowered_detected. Qed.
+
+Theorem C17_snappy_bad_crc :
+  forall (raw_enc : bytes -> bytes) (raw_dec : bytes -> option bytes) (crc32 : bytes -> N),
+  (forall x, raw_dec (raw_enc x) = Some x) ->
+  forall (V : Type) (vdec : bytes -> result V * nat) x (t : bytes) after count sync,
+  length t = 4%nat -> of_be32 t <> crc32 x ->
+  snappy_run raw_dec crc32 V vdec count sync (raw_enc x ++ t ++ after) (length (raw_enc x ++ t)) = None.
+Proof. exact snappy_block_bad_crc. Qed.
+
+Theorem C17_snappy_short_block :
+  forall (raw_dec : bytes -> option bytes) (crc32 : bytes -> N) (V : Type) (vdec : bytes -> result V * nat)
+         src size count sync,
+  (size < 4)%nat -> snappy_run raw_dec crc32 V vdec count sync src size = None.
+Proof. exact snappy_block_short. Qed.
+
+(* the model runs on damaged blocks (the small codec of DecodeLoop.v): count lowered (data left in the buffer /
+   inside the decoder), a trailing byte inside the size, the size one and two too small, the count raised *)
+Theorem C17_decoder_model_damage :
+  let x := [5; 6; 7] in
+  toy_run x [] 2 7 None 1 toy_pol_buffered = Some ([5; 6], BEndErr EndLeftover) /\
+  toy_run x [] 2 7 None 8 toy_pol_buffered = Some ([5; 6], BEndErr EndLeftover) /\
+  toy_run x [3] 3 8 None 8 toy_pol_buffered = Some (x, BEndErr EndTakeLeft) /\
+  toy_run x [3] 3 8 (Some (mkCh 1 [] 1)) 1 toy_pol_buffered = Some (x, BEndErr EndTakeLeft) /\
+  toy_run x [] 3 6 None 8 toy_pol_buffered = Some (x, BEndErr EndDecoderErr) /\
+  toy_run x [] 3 5 None 8 toy_pol_buffered = Some ([5; 6], BValueErr) /\
+  toy_run x [] 4 7 None 8 toy_pol_buffered = Some (x, BValueErr).
+Proof. exact toy_damage. Qed.
+
+(** ** Wave 4: prefix determinism of the datum decoder, cuts inside the header, cuts through the chunked
+    reader, arbitrary corruption (proofs/DePrefixProofs.v, proofs/ContainerDamageProofs.v) *)
+
+(* the datum decoder never looks behind what it consumes: a successful decode of [pre] is the same successful
+   decode (same events, borrowed offsets included) of every input that goes on behind it *)
+Theorem C17_de_prefix_determinism : forall Sc cfg fuel n depth favor force t pre x pos ma d rs',
+  de Sc cfg fuel n depth favor force t (mkRd pre pos None ma) = (Ok d, rs') ->
+  de Sc cfg fuel n depth favor force t (mkRd (pre ++ x) pos None ma)
+  = (Ok d, mkRd (rd_inp rs' ++ x) (rd_pos rs') (rd_chunks rs') (rd_max_alloc rs')).
+Proof. exact de_prefix_determinism. Qed.
+
+(* ... hence the last hypothesis of C17_compressed_values_genuine holds for the real value decoder: every value
+   yielded from a compressed block that holds the written stream, the stream cut short, or the stream followed by
+   other bytes -- whatever the count (<= the number written) -- was written, in order *)
+Theorem C17_compressed_values_genuine_de :
+  forall (D : Type) (dread : D -> bytes -> option chunkst -> nat -> dres * D) (policy : nat -> nat -> option nat)
+         Sc cfg root, schema_wf Sc = true ->
+  forall (z : bytes) (d0 : D) (vs : list avalue) sync src size ch cap fuel count s,
+  Forall (value_ok Sc cfg root) vs -> agree (firstn size src) z ->
+  stream_decoder_contract D dread z (flat_map (enc1 Sc root) vs) (firstn size src) d0 ->
+  (1 <= cap)%nat -> (count <= length vs)%nat ->
+  block_open D d0 src ch size cap = Some s ->
+  exists i, fst (block_run D dread policy dval (de_vdec Sc cfg root) fuel count sync s)
+            = map (dval_any Sc root) (firstn i vs).
+Proof. exact damaged_values_genuine_de. Qed.
+
+(* a written file cut at ANY offset inside its header is refused with an error by the slice reader and by the
+   chunked reader (any plan): never opened with other metadata, never a panic *)
+Theorem C17_header_truncation : forall sync json codec user h tail k pos ma,
+  header_bytes sync json codec user = Ok h ->
+  length sync = 16%nat -> keys_utf8 user -> (length user <= 998)%nat ->
+  (k < length h)%nat ->
+  exists e, cr_open (mkRd (firstn k (h ++ tail)) pos None ma) = Err e.
+Proof. exact header_truncation. Qed.
+Theorem C17_header_truncation_chunked : forall sync json codec user h tail k plan ma,
+  header_bytes sync json codec user = Ok h ->
+  length sync = 16%nat -> keys_utf8 user -> (length user <= 998)%nat ->
+  N.of_nat (length (h ++ tail)) <= ma ->
+  (k < length h)%nat ->
+  exists e, cr_open (chunked_reader (firstn k (h ++ tail)) plan ma) = Err e.
+Proof. exact header_truncation_chunked. Qed.
+
+(* a file written by the writer model, cut at ANY offset j and read through the CHUNKED reader (any plan): inside
+   the header an error; behind it the written metadata and a prefix of the written values, each exactly as the
+   whole file yields it, then at most one error / end of stream and end of stream only *)
+Theorem C17_chunked_truncation_prefix :
+  forall Sc cfg root approx sync vectored json codec user sched st0 hs close outs st',
+  schema_wf Sc = true -> fnode_at Sc 0 = Some root -> length sync = 16%nat ->
+  keys_utf8 user -> (length user <= 998)%nat ->
+  wbuild sync json codec user sched = (WROk, st0) ->
+  Forall (value_ok Sc cfg root) (vals_of hs) ->
+  fits (length (vals_of hs)) -> fits (length (encs Sc root (vals_of hs))) ->
+  close = WFinish \/ close = WIntoInner \/ close = WDrop ->
+  wrun (fun b => b) Sc approx sync vectored st0 (map (op_of Sc root) hs ++ [close]) = (outs, st') ->
+  Forall (fun r => fst r = WROk) outs ->
+  forall plan ma k j, N.of_nat (length (w_sink st')) <= ma ->
+  ((j < length (w_sink st0))%nat ->
+     exists e, cr_open (chunked_reader (firstn j (w_sink st')) plan ma) = Err e) /\
+  ((length (w_sink st0) <= j)%nat ->
+     exists r1 ds m,
+       cr_open (chunked_reader (firstn j (w_sink st')) plan ma) = Ok (header_entries json codec user, sync, r1) /\
+       map erase_borrow ds = map (dval_any Sc root) (vals_of hs) /\
+       cr_run Sc cfg sync TAny (length (vals_of hs) + k) (mkCR (RNotInBlock (ext (skipn j (w_sink st')) r1)) false)
+         = map IValue ds ++ repeat IEof k /\
+       let cut := cr_run Sc cfg sync TAny (length (vals_of hs) + k) (mkCR (RNotInBlock r1) false) in
+       firstn m cut = firstn m (map IValue ds ++ repeat IEof k) /\ stop_tail (skipn m cut)).
+Proof. exact chunked_truncation_prefix. Qed.
+
+(* ARBITRARY bytes (any corruption), slice or chunked reader, any target and configuration: opening never
+   panics and no call of the reader ever panics *)
+Theorem C17_corruption_no_panic : forall Sc cfg sync t file plan ma n r,
+  schema_wf Sc = true ->
+  (forall p, cr_open (slice_reader file) <> Panic p) /\
+  (forall p, cr_open (chunked_reader file plan ma) <> Panic p) /\
+  Forall not_panic (cr_run Sc cfg sync t n (mkCR (RNotInBlock r) false)).
+Proof. exact corruption_no_panic. Qed.
+
+(* the model's own give-up value (IUnmodelled) is returned only after 499 empty blocks in a row, or because the
+   datum decoder ran out of the model's fuel inside a block; for the dynamically typed targets and inputs within
+   the decoder's fuel bound only the empty blocks remain *)
+Theorem C17_reader_give_up_only : forall (Sc : fschema) (cfg : dcfg) (sync : bytes) (t : dtarget) (st st' : crstate),
+  cr_next Sc cfg sync t st = (IUnmodelled, st') ->
+  (exists o o' : rstate, empties Sc cfg sync t 499 o o') \/
+  (exists (i : rstate) (n : N) (root : fnode) (r : result dval) (i' : rstate),
+     n <> 0 /\ fnode_at Sc 0 = Some root /\
+     de Sc cfg FUEL_SINK root (c_depth cfg) false false t i = (r, i') /\ (r = OutOfFuel \/ r = Unmodelled)).
+Proof. exact cr_next_unmodelled. Qed.
+Theorem C17_reader_give_up_any : forall (Sc : fschema) (cfg : dcfg) (sync : bytes) (t : dtarget),
+  schema_wf Sc = true -> forall st st' : crstate,
+  t = TAny \/ t = TIgnored -> c_max_seq cfg < 2 ^ 64 - 1 ->
+  (DeSafetyProofs.work_bound Sc cfg (c_depth cfg) (sz (cr_state st)) <= FUEL_SINK)%nat ->
+  cr_next Sc cfg sync t st = (IUnmodelled, st') -> exists o o' : rstate, empties Sc cfg sync t 499 o o'.
+Proof. exact cr_next_unmodelled_any. Qed.
+
+Check DamageExamples.header_cuts_refused.
+Check DamageExamples.all_chunked_truncations_ok.
+Check DamageExamples.chunked_delivers_more.
+Check DamageExamples.corruptions_no_panic.
+Check prefix_determinism_example.
